@@ -191,7 +191,9 @@ type broker struct {
 	maxProduce int16       // > 0: the highest Produce version ApiVersions offers (2 = a 0.10.x broker: message sets)
 	maxFetch   int16       // > 0: the highest Fetch version offered (2: message-set responses; 5; 10)
 	maxMeta    int16       // > 0: the highest Metadata version offered (1; 6)
-	maxJoin    int16       // > 0: the highest JoinGroup version offered (1; 2: response with a throttle time)
+	strayAfter int64       // > 0: see serve (stray response, then silence)
+	served     int64
+	maxJoin    int16 // > 0: the highest JoinGroup version offered (1; 2: response with a throttle time)
 }
 
 // groupCoord is a small multi-member group coordinator (scaffolding): a JoinGroup or LeaveGroup starts a
@@ -601,6 +603,16 @@ func (b *broker) serve(c net.Conn) {
 		default:
 			if resp = zeroResponse(msg); resp == nil {
 				return
+			}
+		}
+		if b.strayAfter > 0 {
+			// a misbehaving broker: after strayAfter regular answers, one response whose correlation id matches no
+			// request in flight (a duplicate / stray response), then silence
+			switch n := atomic.AddInt64(&b.served, 1); {
+			case n == b.strayAfter+1:
+				corr += 7777
+			case n > b.strayAfter+1:
+				continue
 			}
 		}
 		if err := protocol.WriteResponse(c, v, corr, resp); err != nil {
@@ -1202,6 +1214,36 @@ func scenBatch(rng *rand.Rand, rounds int) {
 	}
 }
 
+// scenConnStray: several requests in flight on one Conn with a deadline, against a broker that answers the first few
+// requests, then sends one response whose correlation id matches none of them and goes silent.  The waiting calls
+// yield the read lock to each other over the stray response until the deadline passes; the first one to notice gives
+// the connection up (abortRead) while the others are still peeking.
+func scenConnStray(rng *rand.Rand, rounds int) {
+	also("Conn.ReadOffsets", "Conn.ReadFirstOffset", "Conn.ReadLastOffset")
+	for i := 0; i < rounds; i++ {
+		b := newBroker("t", 1, 4)
+		b.strayAfter = int64(1 + i%3) // the version negotiation (ApiVersions) is request 1
+		c := kafka.NewConn(b.dial(), "t", 0)
+		dl := time.Duration(20+rng.Intn(40)) * time.Millisecond
+		c.SetDeadline(time.Now().Add(dl))
+		ops := []op{
+			{"Conn.ReadOffsets", func() { _, _, err := c.ReadOffsets(); ok("Conn.ReadOffsets/stray", err) }},
+			{"Conn.ReadPartitions", func() { _, err := c.ReadPartitions("t"); ok("Conn.ReadPartitions/stray", err) }},
+			{"Conn.Brokers", func() { _, err := c.Brokers(); ok("Conn.Brokers/stray", err) }},
+			{"Conn.Controller", func() { _, err := c.Controller(); ok("Conn.Controller/stray", err) }},
+			{"Conn.ReadOffset", func() { _, err := c.ReadOffset(time.Now()); ok("Conn.ReadOffset/stray", err) }},
+			{"Conn.Offset", func() { c.Offset() }},
+			{"Conn.SetReadDeadline", func() { c.SetReadDeadline(time.Now().Add(dl)) }},
+		}
+		var all []string
+		for _, o := range ops {
+			all = append(all, o.name)
+		}
+		runRound(rng, "connstray", i, ops, len(ops), len(ops)+3, all...)
+		c.Close()
+	}
+}
+
 func scenConn(rng *rand.Rand, rounds int) {
 	also("Conn.Broker", "Conn.LocalAddr", "Conn.RemoteAddr")
 	also("Conn.Read", "Conn.ReadBatch", "Conn.ReadBatchWith")
@@ -1557,7 +1599,7 @@ func transportScenario(rng *rand.Rand, rounds int, scen string, useTLS, churn bo
 
 var scenarios = map[string]func(*rand.Rand, int){
 	"balancers": scenBalancers, "writer": scenWriter, "writergrow": scenWriterGrow, "codecfail": scenCodecFail, "codecs": scenCodecs, "readerfront": scenReaderFront,
-	"reader": scenReader, "readergroup": scenReaderGroup, "readerrebalance": scenReaderRebalance, "conn": scenConn, "connproduce": scenConnProduce, "batch": scenBatch, "clientapis": scenClientAPIs, "transport": scenTransport, "transportchurn": scenTransportChurn, "transporttls": scenTransportTLS,
+	"reader": scenReader, "readergroup": scenReaderGroup, "readerrebalance": scenReaderRebalance, "conn": scenConn, "connproduce": scenConnProduce, "batch": scenBatch, "connstray": scenConnStray, "clientapis": scenClientAPIs, "transport": scenTransport, "transportchurn": scenTransportChurn, "transporttls": scenTransportTLS,
 }
 
 func main() {
